@@ -232,7 +232,7 @@ def case(args):
                                               'replay': {'type': 'c19-history', 'module': 'harness.props.c19', 'ops': hist, 'seed': seed,
                                                          'nops': nops, 'observed': t}})
                 break
-    except Exception:
+    except BaseException:      # incl. an escaped RequestHang: a dead pool worker would hang the check
         out['error'] = traceback.format_exc()
     finally:
         try:
@@ -242,6 +242,10 @@ def case(args):
         except Exception:
             pass
     return out
+
+RACES = {'n_rps': 3, 'setup_ops': 8, 'picker': 'tree', 'model': False, 'scenarios': ['name-create-race', 'name-delete-race'],
+         'setup_weights': {'rp_create': 10, 'rc_put': 10, 'trait_put': 10, 'inv_set': 5, 'rc_rename': 0, 'rc_delete': 2,
+                           'trait_delete': 2}}
 
 
 def run(chk):
@@ -264,6 +268,10 @@ def run(chk):
                 chk.violation(x['kind'], x['signature'], x.get('detail', ''), x['replay'])
     if errors:
         raise RuntimeError('worker errors:\n' + errors[0])
+    # beyond sequences: two in-flight requests creating / deleting the same custom name, every interleaving at
+    # transaction granularity on the real application: never a duplicate name or id, statuses 201/204/409 (404)
+    from harness import conc
+    conc.run_races(chk, ['C19'], 48 if chk.tier == 'quick' else 1200, 200, RACES)
     chk.cov['rule'] = ('histories of 40 steps: trait / class create, rename (1.2-1.6), idempotent PUT (1.7+), delete, inventories and provider '
                        'traits putting names in use, malformed and non-custom names sent raw, and forced start-up synchronisation (once or '
                        'twice) after deleting random subsets (none, few, all) of the standard rows by SQL; distinct = (operation, status) pairs')
